@@ -131,13 +131,13 @@ theorem nodup_map_inj {β γ : Type} (g : β → γ) : ∀ (l : List β), (l.map
   | cons b l ih =>
     intro hnd b1 h1 b2 h2 hg
     simp only [List.map_cons, List.nodup_cons, List.mem_map, not_exists, not_and] at hnd
-    rcases List.mem_cons.mp h1 with rfl | h1
-    · rcases List.mem_cons.mp h2 with rfl | h2
+    rcases List.mem_cons.mp h1 with rfl | h1'
+    · rcases List.mem_cons.mp h2 with rfl | h2'
       · rfl
-      · exact absurd hg.symm (hnd.1 b2 h2)
-    · rcases List.mem_cons.mp h2 with rfl | h2
-      · exact absurd hg (hnd.1 b1 h1)
-      · exact ih hnd.2 b1 h1 b2 h2 hg
+      · exact absurd hg.symm (hnd.1 b2 h2')
+    · rcases List.mem_cons.mp h2 with rfl | h2'
+      · exact absurd hg (hnd.1 b1 h1')
+      · exact ih hnd.2 b1 h1' b2 h2' hg
 
 theorem flatMap_map_nodup_inj {α β γ : Type} (f : α → List β) (g : β → γ) : ∀ (l : List α),
     ((l.flatMap f).map g).Nodup → ∀ a1 ∈ l, ∀ a2 ∈ l, ∀ b1 ∈ f a1, ∀ b2 ∈ f a2, g b1 = g b2 →
@@ -151,13 +151,13 @@ theorem flatMap_map_nodup_inj {α β γ : Type} (f : α → List β) (g : β →
     obtain ⟨hl, hr, hdis⟩ := hnd
     have inTail : ∀ a' ∈ l, ∀ b' ∈ f a', g b' ∈ (l.flatMap f).map g :=
       fun a' ha' b' hb' => List.mem_map.mpr ⟨b', List.mem_flatMap.mpr ⟨a', ha', hb'⟩, rfl⟩
-    rcases List.mem_cons.mp h1 with rfl | h1
-    · rcases List.mem_cons.mp h2 with rfl | h2
+    rcases List.mem_cons.mp h1 with rfl | h1'
+    · rcases List.mem_cons.mp h2 with rfl | h2'
       · exact ⟨rfl, nodup_map_inj g _ hl b1 hb1 b2 hb2 hg⟩
-      · exact absurd hg (hdis _ (List.mem_map.mpr ⟨b1, hb1, rfl⟩) _ (inTail a2 h2 b2 hb2))
-    · rcases List.mem_cons.mp h2 with rfl | h2
-      · exact absurd hg.symm (hdis _ (List.mem_map.mpr ⟨b2, hb2, rfl⟩) _ (inTail a1 h1 b1 hb1))
-      · exact ih hr a1 h1 a2 h2 b1 hb1 b2 hb2 hg
+      · exact absurd hg (hdis _ (List.mem_map.mpr ⟨b1, hb1, rfl⟩) _ (inTail a2 h2' b2 hb2))
+    · rcases List.mem_cons.mp h2 with rfl | h2'
+      · exact absurd hg.symm (hdis _ (List.mem_map.mpr ⟨b2, hb2, rfl⟩) _ (inTail a1 h1' b1 hb1))
+      · exact ih hr a1 h1' a2 h2' b1 hb1 b2 hb2 hg
 
 /-- Well-formedness of the loaded set that the agreement needs. -/
 structure Hyp (r : Registry) : Prop where
@@ -407,5 +407,35 @@ theorem resolveIdentities_graph (o : Oracle) (ho : o.Valid) (r : Registry) (lk :
         exact h1 m ((parts_spec gf.parts m).mpr ⟨s, hin, hb⟩)
       · intro e he hb
         exact h3 e.vtx ((hverts _).mp ⟨e, he, rfl⟩) ((below_iff_derives hE _ _).mp hb)
+
+/-! ### finite checks that establish the hypotheses for a concrete loaded set -/
+
+theorem regOK_of_entries {r : Registry}
+    (h : ∀ kv ∈ r.modules, ∀ m, r.byId kv.2 = some m → m.isSub = false) : RegOK r := by
+  intro k m hk
+  unfold Registry.getModule KeyMap.get? at hk
+  obtain ⟨id, hid, hb⟩ := Option.bind_eq_some_iff.mp hk
+  obtain ⟨kv, hkv, rfl⟩ := Option.map_eq_some_iff.mp hid
+  exact h kv (List.mem_of_find?_eq_some hkv) m hb
+
+theorem linkOK_of_all {r : Registry} {lk : Link}
+    (h : ∀ m ∈ r.mods, includeSucc r lk m.seq = includedBy r m.seq) : LinkOK r lk := by
+  intro s _
+  cases hb : r.byId s with
+  | none => simp [includeSucc, includedBy, hb]
+  | some m =>
+    have := h m (byId_mem hb)
+    rw [byId_seq hb] at this
+    exact this
+
+theorem acyclic_of_rank {G : Graph} (rank : Spec.Identity.Vertex → Nat)
+    (h : ∀ e ∈ G.edges, rank e.2 < rank e.1) : Spec.Identity.Acyclic G := by
+  have key : ∀ j i, Derives G j i → rank i < rank j := by
+    intro j i hd
+    induction hd with
+    | base he => exact h _ he
+    | step he _ ih => exact Nat.lt_trans ih (h _ he)
+  intro v hv
+  exact Nat.lt_irrefl _ (key v v hv)
 
 end Goyang.Lemmas.Identity
